@@ -60,6 +60,8 @@ static void compare(const std::string& ename, const std::vector<LayerView>& a0, 
     std::vector<LayerView> a = a0, b = b0; strip_empty_tail(a); strip_empty_tail(b);
     // minimum-frame padding: some Ethernet-like layer of the re-parsed packet carries a frame of at most 64 bytes
     bool min_frame = false; for (auto& l : b0) if ((l.cls == "EthernetII" || l.cls == "Dot3" || l.cls == "Dot1Q") && l.rem_size <= 64) min_frame = true;
+    // ... but a layer that delimits its payload with a length field of its own (IPv4 total length, IPv6 payload length) keeps the frame padding out of it
+    for (auto& l : b0) if (l.cls == "IP" || l.cls == "IPv6") { if (min_frame) cnt("min-frame-padding-rule-not-applicable-below-ip"); min_frame = false; }
     bool icmp_pad = false; for (auto& l : b0) if (l.rfc4884) icmp_pad = true;      // RFC 4884: original datagram zero-padded to a word boundary
     (void)y;
     // Ethernet minimum-frame padding exposed by the re-parse as a trailing all-zero payload
